@@ -9,10 +9,21 @@
 #include "uv-common.h"
 #include "heap-inl.h"
 
+/* Virtual clocks.  CLOCK_MONOTONIC_COARSE reads vclock_ms + 0.9 ms (so that it is not on a
+ * millisecond boundary) and advertises a 1 ms resolution, which makes libuv select it as its
+ * "fast" clock; every other clock id is the precise clock = coarse + lag_ns, lag in [0, 1 ms):
+ * the coarse clock lags the precise one by up to a tick, as on a real kernel.  A loop clock that
+ * mixes the two sources can therefore be seen to go backwards. */
 static uint64_t vclock_ms;
+static uint64_t lag_ns;
 int clock_gettime(clockid_t id, struct timespec* ts) {
-  (void) id;
-  ts->tv_sec = vclock_ms / 1000; ts->tv_nsec = (vclock_ms % 1000) * 1000000;
+  uint64_t ns = vclock_ms * 1000000ull + 900000ull;
+  if (id != CLOCK_MONOTONIC_COARSE) ns += lag_ns;
+  ts->tv_sec = ns / 1000000000ull; ts->tv_nsec = ns % 1000000000ull;
+  return 0;
+}
+int clock_getres(clockid_t id, struct timespec* ts) {
+  ts->tv_sec = 0; ts->tv_nsec = (id == CLOCK_MONOTONIC_COARSE) ? 1000000 : 1;
   return 0;
 }
 
@@ -75,11 +86,13 @@ int main(void) {
       if (inited) { /* leave the old loop; the harness is restarted per case instead */ }
       vclock_ms = 0;
       uv_loop_init(&loop); inited = 1; ntm = n; ncb = 0;
+      printf("loopinit time=%llu\n", (unsigned long long) uv_now(&loop));
       memset(script, 0, sizeof script);
       for (unsigned i = 0; i < n; i++) { tm[i] = calloc(1, sizeof(uv_timer_t)); uv_timer_init(&loop, tm[i]); }
       uv_update_time(&loop);
       obs();
-    } else if (sscanf(line, "time %llu", &t) == 1) { vclock_ms = t; uv_update_time(&loop); obs(); }
+    } else if (sscanf(line, "lag %llu", &t) == 1) { lag_ns = (t % 1000) * 1000ull; }
+    else if (sscanf(line, "time %llu", &t) == 1) { vclock_ms = t; uv_update_time(&loop); obs(); }
     else if (sscanf(line, "start %u %llu %llu", &id, &t, &r) == 3) { printf("ret %d\n", uv_timer_start(tm[id], timer_cb, t, r)); obs(); }
     else if (sscanf(line, "stop %u", &id) == 1) { printf("ret %d\n", uv_timer_stop(tm[id])); obs(); }
     else if (sscanf(line, "again %u", &id) == 1) { printf("ret %d\n", uv_timer_again(tm[id])); obs(); }
